@@ -118,6 +118,35 @@ def one_case(seed):
         kind = rng.random()
         val, vtext = make_value(rng, "%d_%d" % (seed % 1000, step))
         snap = c11.snapshot(page, secs) if secs else None
+        if secs and rng.random() < 0.12:
+            # ---- the VALUE is a live view of this page (a section, possibly the target itself or one that contains it) or
+            # the page itself: what is inserted is what the value holds when the call is made
+            v = rng.choice(secs + [page])
+            vtext = str(v)
+            cands = [x for x in secs if len(x.nodes)] + [n for n in page.nodes]
+            tgt = rng.choice(cands)
+            tn = list(tgt.nodes) if hasattr(tgt, "nodes") else [tgt]
+            top = list(page.nodes)
+            ids_top = [id(x) for x in top]
+            if not tn or id(tn[0]) not in ids_top:
+                continue
+            a = ids_top.index(id(tn[0]))
+            if [id(x) for x in tn] != ids_top[a:a + len(tn)]:
+                continue
+            pre = "".join(str(x) for x in top[:a])
+            post = "".join(str(x) for x in top[a + len(tn):])
+            tt = "".join(str(x) for x in tn)
+            op = rng.choice(["insert_before", "insert_after", "replace", "replace"])
+            ops_done.append((op, "view-value", tt[:30], vtext[:30]))
+            try:
+                getattr(page, op)(tgt, v)
+            except Exception as e:  # noqa: BLE001
+                return text, ops_done, "%s with a live view as the value raised %r" % (op, e), nested
+            exp = {"replace": pre + vtext + post, "insert_before": pre + vtext + tt + post, "insert_after": pre + tt + vtext + post}[op]
+            if str(page) != exp:
+                return text, ops_done, "%s(target, <live view of the page>): text is %r, expected %r (the value as it was when the call was made)" % (
+                    op, str(page)[:160], exp[:160]), nested
+            break           # the same node objects are now at two places (the caller asked for that): the history ends here
         if secs and kind < 0.2:
             # ---- a section view as the target
             j = rng.randrange(len(secs))
@@ -269,6 +298,8 @@ def one_case(seed):
             # ---- index edits on the page while views are alive (negative indices, empty values = deletion)
             L = len(page.nodes)
             i = rng.randint(-L, L - 1) if L else 0
+            if L and rng.random() < 0.5:
+                val, vtext, i = "", "", rng.randint(-L, -1)      # deletion through a negative index
             ops_done.append(("set", "index+views", i, repr(vtext)[:30]))
             try:
                 page.set(i, val)
@@ -374,6 +405,118 @@ def _work(seeds):
     return out
 
 
+WEAK_KINDS = ["remove", "replace", "insert_before", "insert_after"]
+
+
+def weak_cases(seed, n):
+    """(kind, pattern ids, value ids, list ids, nested?, recursive?) - a 4-letter alphabet so that the pattern occurs often and overlaps itself"""
+    rng = random.Random(seed * 7 + 5)
+    out = []
+    for _ in range(n):
+        l = [rng.randrange(4 if rng.random() < 0.8 else 2) for _ in range(rng.randrange(0, 11))]
+        r = rng.random()
+        if r < 0.6 and len(l) >= 1:
+            i = rng.randrange(len(l))
+            pat = l[i:i + rng.randrange(1, 4)]
+        elif r < 0.65:
+            pat = []
+        else:
+            pat = [rng.randrange(4) for _ in range(rng.randrange(1, 4))]
+        new = [rng.randrange(7, 10) for _ in range(rng.randrange(0, 3))]
+        if rng.random() < 0.15:
+            new = list(pat) + new          # a value that contains the target again
+        out.append((rng.randrange(4), pat, new, l, rng.random() < 0.3, rng.random() < 0.5))
+    return out
+
+
+def _weak_work(cases):
+    import mwparserfromhell
+    from mwparserfromhell.nodes import Template
+    res = []
+    for kind, pat, new, l, nested, recursive in cases:
+        tx = lambda ids: "".join("{{%d}}" % i for i in ids)
+        page = mwparserfromhell.parse("{{t|" + tx(l) + "}}" if nested else tx(l))
+        holder = page.nodes[0].params[0].value if nested else page
+        args = (tx(pat),) if kind == 0 else (tx(pat), tx(new))
+        try:
+            getattr(page if (nested and recursive) else holder, WEAK_KINDS[kind])(*args, recursive=recursive)
+        except ValueError:
+            res.append("E ValueError")
+            continue
+        except Exception as e:      # noqa: BLE001
+            res.append("E %s" % type(e).__name__)
+            continue
+        if not all(isinstance(x, Template) and not x.params for x in holder.nodes):
+            res.append("? " + str(holder))
+            continue
+        res.append(",".join(str(x.name) for x in holder.nodes) or "-")
+    return res
+
+
+def weak_tie(c, tier, seed):
+    """string targets with exact matches: the real remove/replace/insert_before/insert_after vs the extracted weak_edit"""
+    cases = weak_cases(seed, 6000 if tier == "quick" else 200000)
+    real = vlib.robust_map(_weak_work, cases, chunk=500, timeout=120)
+    lines = ["%d %d %s %d %s %d %s" % (k, len(p), " ".join(map(str, p)), len(nw), " ".join(map(str, nw)), len(l), " ".join(map(str, l)))
+             for k, p, nw, l, _n, _r in cases]
+    try:
+        model = vlib.model_run("weaksearch", lines)
+    except Exception as e:  # noqa: BLE001
+        c.broken.append({"file": "coq/extract/weaksearch_run", "line": 0, "statement": "weak_edit (extracted)", "error": str(e)})
+        return
+    dis = 0
+    for case, r, m in zip(cases, real, model):
+        c.cov["traces_validated_against_impl"] += 1
+        if isinstance(r, tuple):
+            c.fail("string-target edit %s: %s" % (r[0], str(r[1])[:200]), {"weak_case": list(case)})
+            continue
+        if r.strip() != m.strip():
+            dis += 1
+            kind, pat, new, l, nested, recursive = case
+            # the model is proved to edit only occurrences: is the implementation's result still of that shape?
+            bad = None
+            if not r.startswith("E") and not r.startswith("?") and not m.startswith("E"):
+                got = [] if r == "-" else [int(x) for x in r.split(",")]
+                seg = {0: [], 1: new, 2: new + pat, 3: pat + new}[kind]
+                if not _only_occurrences(l, got, pat, seg):
+                    bad = "changes something else than occurrences of the target"
+            elif r.startswith("E") != m.startswith("E"):
+                bad = "raises %s although the target occurs" % r[2:] if r.startswith("E") else "does not raise although the target occurs nowhere"
+            elif r.startswith("?"):
+                bad = "leaves other nodes than the expected templates: %s" % r[2:80]
+            if bad:
+                c.fail("%s(%r%s, recursive=%r) on %r %s: got %s, the model (scan from the end, disjoint exact matches) gives %s"
+                       % (WEAK_KINDS[kind], "".join("{{%d}}" % i for i in pat), "" if kind == 0 else ", %r" % "".join("{{%d}}" % i for i in new),
+                          recursive, ("{{t|%s}}" if nested else "%s") % "".join("{{%d}}" % i for i in l), bad, r, m), {"weak_case": list(case)})
+            elif dis <= 3:
+                c.broken.append({"file": "correspondence string targets", "line": 0, "statement": "weak_edit (model tie)",
+                                 "error": "case %r: model %r vs implementation %r" % (case, m, r)})
+    c.notes["weak_search_model_disagreements"] = dis
+
+
+def _only_occurrences(old, new, pat, seg):
+    """new = old with some disjoint occurrences of pat replaced by seg (any choice)"""
+    m = len(pat)
+    if m == 0:
+        return old == new
+    reach = {(0, 0)}
+    frontier = [(0, 0)]
+    while frontier:
+        i, j = frontier.pop()
+        if i == len(old) and j == len(new):
+            return True
+        nxt = []
+        if i < len(old) and j < len(new) and old[i] == new[j]:
+            nxt.append((i + 1, j + 1))
+        if old[i:i + m] == pat and new[j:j + len(seg)] == seg:
+            nxt.append((i + m, j + len(seg)))
+        for st in nxt:
+            if st not in reach:
+                reach.add(st)
+                frontier.append(st)
+    return False
+
+
 def run(tier, seed):
     c = vlib.Check("C08", tier, seed, "proof")
     vlib.pure_python_parser()
@@ -395,6 +538,7 @@ def run(tier, seed):
             nontrivial.add(text + repr(ops))
         if fail:
             c.fail(fail, {"seed": s, "text": text, "ops": repr(ops)})
+    weak_tie(c, tier, seed)
     c.cov["distinct_nontrivial"] = len(nontrivial)
     c.cov["rule"] = ("grammar documents (depth 1-4; 30% with a repeated half so that several nodes render the same text) x sequences of 1-4 edits: "
                      "node targets at any depth (located by identity through a marker rendering), nodes of another tree, index targets on the page "
@@ -409,6 +553,11 @@ def run(tier, seed):
 
 
 def replay(data):
+    if "weak_case" in data["data"]:
+        vlib.pure_python_parser()
+        case = tuple(data["data"]["weak_case"])
+        print(case, _weak_work([case]))
+        return 1
     r = one_case(data["data"]["seed"])
     print(r[1], r[2])
     return 1 if r[2] else 0
